@@ -7,6 +7,7 @@ import (
 
 	"go.etcd.io/raft/v3"
 	pb "go.etcd.io/raft/v3/raftpb"
+	"google.golang.org/protobuf/proto"
 )
 
 // SpecTracer abstracts every step of the real nodes and of the environment into actions of the
@@ -25,6 +26,15 @@ type SpecTracer struct {
 	// Spec.sendReqVote is inserted right after that line when (and only if) a MsgVote of that term is handed to
 	// the network; a candidate that crashes first never sent it.
 	unsent map[uint64][]*unsentReq
+
+	// R: the run has membership changes and is replayed through Spec/Reconf.lean (SpecR) instead: entries carry
+	// the configuration they produce, every node has an applied index, `crash` names the applied index the node
+	// restarts with. pfx is "sp" or "spr".
+	R           bool
+	pfx         string
+	cfgOf       map[[2]uint64]string // (term, index) of a configuration entry -> "incoming/outgoing" it produces
+	specApplied map[uint64]uint64    // the applied index SpecR has for each node
+	crashLine   map[uint64]int       // index in Lines of the node's last `crash` line (its applied index is filled in at restart)
 }
 
 type unsentReq struct {
@@ -32,7 +42,10 @@ type unsentReq struct {
 	term uint64
 }
 
-type sent struct{ term, val uint64 }
+type sent struct {
+	term, val uint64
+	cfg       string // SpecR: "incoming/outgoing" produced by a configuration entry, "" otherwise
+}
 
 type absNode struct {
 	role   string
@@ -45,7 +58,15 @@ type absNode struct {
 func newSpecTracer(c *Cluster) *SpecTracer {
 	t := &SpecTracer{c: c, ghost: map[uint64][]sent{}, dghost: map[uint64][]sent{}, snapG: map[[2]uint64][]sent{},
 		last: map[uint64]absNode{}, nmsgs: map[uint64]int{}, unsent: map[uint64][]*unsentReq{}}
-	t.Lines = append(t.Lines, fmt.Sprintf("sp init %s -", tokIDs(c.O.Voters)))
+	t.R = c.O.SpecR
+	t.pfx = "sp"
+	if t.R {
+		t.pfx = "spr"
+		t.cfgOf, t.specApplied, t.crashLine = map[[2]uint64]string{}, map[uint64]uint64{}, map[uint64]int{}
+	}
+	vs := append([]uint64(nil), c.O.Voters...)
+	sort.Slice(vs, func(i, j int) bool { return vs[i] < vs[j] })
+	t.Lines = append(t.Lines, fmt.Sprintf("%s init %s -", t.pfx, tokIDs(vs)))
 	return t
 }
 
@@ -55,7 +76,7 @@ func entVal(e *pb.Entry) uint64 {
 }
 
 func (t *SpecTracer) emit(format string, a ...any) {
-	t.Lines = append(t.Lines, "sp a "+fmt.Sprintf(format, a...))
+	t.Lines = append(t.Lines, t.pfx+" a "+fmt.Sprintf(format, a...))
 }
 
 func roleOf(s raft.StateType) string {
@@ -68,37 +89,84 @@ func roleOf(s raft.StateType) string {
 	return "F"
 }
 
+func cfgHash(cfg string) uint64 {
+	if cfg == "" {
+		return 0
+	}
+	halves := strings.SplitN(cfg, "/", 2)
+	fold := func(s string, h uint64) uint64 {
+		if s == "" || s == "-" {
+			return h
+		}
+		for _, x := range strings.Split(s, ",") {
+			var v uint64
+			fmt.Sscan(x, &v)
+			h = (h*31 + v + 1) % 2147483647
+		}
+		return h
+	}
+	return fold(halves[0], 17)*1009 + fold(halves[1], 19)
+}
+
+// logHash: the order-sensitive hash of a ghost log that Spec/Check.lean resp. Spec/ReconfCheck.lean compute
 func logHash(l []sent) uint64 {
 	h := uint64(0)
 	for _, e := range l {
-		h = (h*1000003 + (e.term*131+e.val+7)%2147483647) % 2147483647
+		h = (h*1000003 + (e.term*131+e.val+7+cfgHash(e.cfg))%2147483647) % 2147483647
 	}
 	return h
+}
+
+func tokEnt(e sent) string {
+	if e.cfg != "" {
+		return fmt.Sprintf("%d:%d:%s", e.term, e.val, e.cfg)
+	}
+	return fmt.Sprintf("%d:%d", e.term, e.val)
 }
 
 func tokLog(l []sent) string {
 	var sb strings.Builder
 	fmt.Fprintf(&sb, "%d", len(l))
 	for _, e := range l {
-		fmt.Fprintf(&sb, " %d:%d", e.term, e.val)
+		sb.WriteByte(' ')
+		sb.WriteString(tokEnt(e))
 	}
 	return sb.String()
 }
 
 // rebuild the ghost of a log given the retained prefix below `base`.
-func rebuild(old []sent, base uint64, ents []*pb.Entry) []sent {
+func (t *SpecTracer) rebuild(old []sent, base uint64, ents []*pb.Entry) []sent {
 	g := make([]sent, 0, int(base)+len(ents))
 	for i := uint64(0); i < base; i++ {
 		if i < uint64(len(old)) {
 			g = append(g, old[i])
 		} else {
-			g = append(g, sent{0, 0}) // unknown prefix: will show up as a mismatch
+			g = append(g, sent{}) // unknown prefix: will show up as a mismatch
 		}
 	}
 	for _, e := range ents {
-		g = append(g, sent{e.GetTerm(), entVal(e)})
+		g = append(g, t.sentOf(e))
 	}
 	return g
+}
+
+// sentOf: the ghost of a real entry (SpecR: with the configuration it produces, recorded when its leader created it)
+func (t *SpecTracer) sentOf(e *pb.Entry) sent {
+	s := sent{term: e.GetTerm(), val: entVal(e)}
+	if t.R {
+		s.cfg = t.cfgOf[[2]uint64{e.GetTerm(), e.GetIndex()}]
+	}
+	return s
+}
+
+// cfgText: "incoming/outgoing" of a configuration, ids ascending, "-" for an empty half
+func cfgText(cs *pb.ConfState) string {
+	srt := func(x []uint64) []uint64 {
+		y := append([]uint64(nil), x...)
+		sort.Slice(y, func(i, j int) bool { return y[i] < y[j] })
+		return y
+	}
+	return tokIDs(srt(cs.GetVoters())) + "/" + tokIDs(srt(cs.GetVotersOutgoing()))
 }
 
 func (t *SpecTracer) refreshDur(n *Node) {
@@ -115,7 +183,7 @@ func (t *SpecTracer) refreshDur(n *Node) {
 			old = g
 		}
 	}
-	t.dghost[n.ID] = rebuild(old, base, se[1:])
+	t.dghost[n.ID] = t.rebuild(old, base, se[1:])
 }
 
 func (t *SpecTracer) cmp(n *Node) {
@@ -123,13 +191,19 @@ func (t *SpecTracer) cmp(n *Node) {
 	dg := t.dghost[n.ID]
 	dur := fmt.Sprintf("%d %d %d %d %d", hs.GetTerm(), hs.GetVote(), hs.GetCommit(), len(dg), logHash(dg))
 	if n.RN == nil || !n.Alive {
-		t.Lines = append(t.Lines, fmt.Sprintf("sp cmpd %d %s", n.ID, dur))
+		t.Lines = append(t.Lines, fmt.Sprintf("%s cmpd %d %s", t.pfx, n.ID, dur))
 		return
 	}
 	a := t.last[n.ID]
 	g := t.ghost[n.ID]
-	t.Lines = append(t.Lines, fmt.Sprintf("sp cmp %d %s %d %d %d %d %d d %s p %d", n.ID, a.role, a.term, a.vote, a.commit,
-		len(g), logHash(g), dur, len(n.AppendQ)+t.syncPending(n)))
+	line := fmt.Sprintf("%s cmp %d %s %d %d %d %d %d d %s p %d", t.pfx, n.ID, a.role, a.term, a.vote, a.commit,
+		len(g), logHash(g), dur, len(n.AppendQ)+t.syncPending(n))
+	if t.R {
+		// the applied index SpecR has for the node, and the node's ACTIVE configuration (which SpecR derives from
+		// the configuration entries up to that index)
+		line += fmt.Sprintf(" a %d c %s", t.specApplied[n.ID], cfgText(n.RN.VerifConfState()))
+	}
+	t.Lines = append(t.Lines, line)
 }
 
 func (t *SpecTracer) syncPending(n *Node) int { return 0 }
@@ -146,9 +220,18 @@ func (t *SpecTracer) onStart(n *Node) {
 		return
 	}
 	a, base, ents := t.abs(n)
+	if t.R {
+		ap := n.RN.BasicStatus().Applied
+		if k, ok := t.crashLine[n.ID]; ok { // the restart chose the applied index: SpecR's crash action names it
+			t.Lines[k] = fmt.Sprintf("spr a crash %d %d", n.ID, ap)
+			t.c.Stats["specr_restarts"]++
+			delete(t.crashLine, n.ID)
+		}
+		t.specApplied[n.ID] = ap
+	}
 	t.refreshDur(n)
 	// after a restart the logical log is the storage
-	t.ghost[n.ID] = rebuild(t.dghost[n.ID], base, ents)
+	t.ghost[n.ID] = t.rebuild(t.dghost[n.ID], base, ents)
 	t.last[n.ID] = a
 	t.nmsgs[n.ID] = 0
 	t.cmp(n)
@@ -174,6 +257,12 @@ func (t *SpecTracer) afterOp(n *Node, op string, msg *pb.Message) {
 	post, base, ents := t.abs(n)
 	oldGhost := t.ghost[n.ID]
 	id := n.ID
+	if t.R && n.Applied > t.specApplied[id] && n.Applied <= pre.commit {
+		// the application has applied further entries (for a configuration entry: ApplyConfChange is this very call)
+		t.emit("applyTo %d %d", id, n.Applied)
+		t.c.Stats["specr_applyTo"]++
+		t.specApplied[id] = n.Applied
+	}
 
 	// --- term / vote / role going up
 	if post.term > pre.term {
@@ -215,7 +304,8 @@ func (t *SpecTracer) afterOp(n *Node, op string, msg *pb.Message) {
 			} else {
 				var sb strings.Builder
 				for _, e := range msg.GetEntries() {
-					fmt.Fprintf(&sb, " %d:%d", e.GetTerm(), entVal(e))
+					sb.WriteByte(' ')
+					sb.WriteString(tokEnt(t.sentOf(e)))
 				}
 				t.emit("handleApp %d %d %d %d %d %d%s", id, msg.GetTerm(), msg.GetIndex(), msg.GetLogTerm(), msg.GetCommit(),
 					len(msg.GetEntries()), sb.String())
@@ -234,6 +324,9 @@ func (t *SpecTracer) afterOp(n *Node, op string, msg *pb.Message) {
 			installed := base == s.GetIndex() && len(ents) == 0 && post.commit == s.GetIndex() && (pre.last != post.last || pre.commit != post.commit)
 			if installed && (uint64(len(oldGhost)) < s.GetIndex() || !sameLog(oldGhost[:s.GetIndex()], g)) {
 				oldGhost = g
+				if t.R { // the snapshot replaces the log: the configuration switches at once (SpecR: applied := index)
+					t.specApplied[id] = s.GetIndex()
+				}
 			} else {
 				// ignored or fast-forwarded: the implementation answers with its commit index
 				t.emit("ackCommit %d %d", id, msg.GetTerm())
@@ -241,13 +334,36 @@ func (t *SpecTracer) afterOp(n *Node, op string, msg *pb.Message) {
 			handled = true
 		}
 	}
-	newGhost := rebuild(oldGhost, base, ents)
+	newGhost := t.rebuild(oldGhost, base, ents)
 	if post.role == "L" && !handled {
 		// a leader only appends entries of its own term
 		for i := pre.last; i < post.last; i++ {
-			if i < uint64(len(newGhost)) {
-				t.emit("leaderAppend %d %d", id, newGhost[i].val)
+			if i >= uint64(len(newGhost)) {
+				continue
 			}
+			if t.R && i >= base && i-base < uint64(len(ents)) {
+				// a configuration entry carries the configuration it produces, computed — independently of the
+				// library's Changer — from the leader's active configuration (it has nothing unapplied above it)
+				if e := ents[i-base]; e.GetType() == pb.EntryConfChange || e.GetType() == pb.EntryConfChangeV2 {
+					var v2 *pb.ConfChangeV2
+					if e.GetType() == pb.EntryConfChange {
+						var cc pb.ConfChange
+						proto.Unmarshal(e.GetData(), &cc)
+						v2 = cc.AsV2()
+					} else {
+						v2 = &pb.ConfChangeV2{}
+						proto.Unmarshal(e.GetData(), v2)
+					}
+					cfg := cfgText(foldConf(n.RN.VerifConfState(), v2))
+					t.cfgOf[[2]uint64{e.GetTerm(), e.GetIndex()}] = cfg
+					newGhost[i].cfg = cfg
+					halves := strings.SplitN(cfg, "/", 2)
+					t.emit("leaderAppendCfg %d %d %s %s", id, newGhost[i].val, halves[0], halves[1])
+					t.c.Stats["specr_cfg_entries"]++
+					continue
+				}
+			}
+			t.emit("leaderAppend %d %d", id, newGhost[i].val)
 		}
 	}
 	t.ghost[id] = newGhost
@@ -322,7 +438,13 @@ func (t *SpecTracer) onPersist(n *Node) {
 }
 
 func (t *SpecTracer) onCrash(n *Node) {
-	t.emit("crash %d", n.ID)
+	if t.R {
+		t.emit("crash %d 0", n.ID) // the applied index is filled in when (if) the node restarts
+		t.crashLine[n.ID] = len(t.Lines) - 1
+		t.specApplied[n.ID] = 0
+	} else {
+		t.emit("crash %d", n.ID)
+	}
 	delete(t.unsent, n.ID)
 }
 
@@ -336,8 +458,13 @@ func (t *SpecTracer) onSend(from *Node, m *pb.Message) {
 			if u.term != m.GetTerm() {
 				continue
 			}
-			line := fmt.Sprintf("sp a sendReqVote %d", from.ID)
+			line := fmt.Sprintf("%s a sendReqVote %d", t.pfx, from.ID)
 			t.Lines = append(t.Lines[:u.pos], append([]string{line}, t.Lines[u.pos:]...)...)
+			for k, v := range t.crashLine {
+				if v >= u.pos {
+					t.crashLine[k] = v + 1
+				}
+			}
 			for _, us := range t.unsent {
 				for _, o := range us {
 					if o != u && o.pos >= u.pos {
